@@ -164,6 +164,14 @@ def run_oracle(ck, n_int, n_named):
                 rt.guard(ck, oracle_fwd, ck, 2, m, J, (h0, h1, gen.int_filter(rng, L2), gen.int_filter(rng, L2)), x)
             else:
                 rt.guard(ck, oracle_fwd, ck, 2, m, J, (h0, h1), x)
+    # the extremes of the filter range: the longest wavelets over a run of CONSECUTIVE signal lengths, 1-D and 2-D
+    for name in ('db38', 'coif17'):
+        w = pywt.Wavelet(name); L = w.dec_len
+        for n in range(L, L + 40):
+            x = gen.float_tensor(ck.nprng, (1, 1, n))
+            rt.guard(ck, oracle_fwd, ck, 1, gen.MODES5[n % 5], 1, (np.array(w.dec_lo), np.array(w.dec_hi)), x, tol=1e-9, named=name)
+        for (a, b) in [(L + 3, 40), (41, L + 6)]:
+            rt.guard(ck, oracle_fwd, ck, 2, rng.choice(gen.MODES5), 1, (np.array(w.dec_lo), np.array(w.dec_hi)), gen.float_tensor(ck.nprng, (1, 1, a, b)), tol=1e-9, named=name)
     names = named_wavelets(rng, n_named)
     for name in names:
         w = pywt.Wavelet(name)
